@@ -24,7 +24,7 @@ BRANCHES = [
     "destruct.no-inventory", "destruct.inventory-hooks", "destruct.hook-enabled-the-dying-object",
     "destruct.hook-disabled-the-dying-object", "take",
     "clone.blueprint-heart-beat-switched-off", "clone.blueprint-has-no-heart-beat", "timer-fired", "heart_beats()",
-    "replace_program", "replace_programs:program-swapped", "error.after-self-destruct", "error.caught-by-catch", "reload_object", "enable_commands", "eval_cost-used", "timer_flags-set",
+    "move_object", "replace_program", "replace_programs:program-swapped", "error.after-self-destruct", "error.caught-by-catch", "reload_object", "enable_commands", "eval_cost-used", "timer_flags-set",
     "chb.call.living:command_giver=ob", "chb.call.not-living:command_giver=0", "chb.call.eval_cost-was-full",
     "chb.call.eval_cost-reset-after-use", "chb.timer_flags-without-HEARTBEAT:empty",
     "chb.timer_flags-without-HEARTBEAT:list-kept", "backend.start-up-call", "backend.further-passes-after-error",
@@ -284,6 +284,20 @@ class C11(Prop):
                                                  "do o5 dest,o2", "do o0 hbs", "do o0 dest,o3", "do o5 dest,o2", "do o0 hbs", "tick"])
         mk("hook-error-carrier-destructs-itself-in-beat", carrier + ["script o3 md err", "script o2 hb:0 dest,o2;hbs", "tick",
                                                                       "do o0 hbs", "tick"])
+        # --- move_or_destruct(): the item destructs ITSELF (allowed), tries to destruct somebody else (restrict_destruct:
+        #     error, the carrier survives), or moves away (it survives, keeps its heart beat, the carrier dies)
+        carrier3 = ["do o0 clone,o2,0,1", "do o0 clone,o3,0,1", "do o0 clone,o4,0,1", "do o0 clone,o5,0,2", "do o0 clone,o6,0,1",
+                    "do o2 take,o3", "do o2 take,o4"]
+        mk("hook-item-destructs-itself", carrier3 + ["script o4 md hbs;dest,o4;hbs", "script o3 md shb,o3,3", "tick", "do o0 dest,o2",
+                                                     "do o0 hbs", "tick"])
+        mk("hook-item-moves-away", carrier3 + ["script o4 md mv,o5;hbs", "script o3 md mv,o2;mv,o9;hbs", "tick", "do o0 dest,o2",
+                                               "do o0 hbs", "tick", "do o0 dest,o5", "do o0 hbs", "tick"])
+        mk("hook-item-moves-away-inside-heart-beat", carrier3 + ["script o4 md mv,o6", "script o6 hb:1 dest,o2;hbs", "tick", "tick",
+                                                                 "do o0 hbs", "tick"])
+        mk("hook-restricted-destruct", carrier3 + ["script o4 md dest,o5;hbs", "script o5 hb:1 dest,o2;hbs", "tick", "tick",
+                                                   "do o0 hbs", "do o0 dest,o2", "do o0 hbs", "do o0 dest,o5", "tick"])
+        mk("move-between-carriers", carrier3 + ["do o3 mv,o5", "do o3 mv,o3", "do o5 mv,o6", "do o2 mv,o6", "do o4 mv,o0", "tick",
+                                                "do o0 dest,o5", "do o0 hbs", "do o0 dest,o2", "do o0 hbs", "tick"])
         mk("take-refusals", ["do o0 clone,o2,0,1", "do o0 clone,o3,0,1", "do o0 clone,o4,0,1", "do o2 take,o3", "do o3 take,o4",
                              "do o4 take,o2", "do o2 take,o2", "do o2 take,o0", "do o2 take,o9", "do o4 take,o3",
                              "do o0 dest,o2", "do o4 take,o3", "tick"])
@@ -383,7 +397,7 @@ class C11(Prop):
         ops = []
         for _ in range(n if n is not None else rng.weighted([(1, 6), (2, 4), (3, 2), (5, 1)])):
             k = rng.weighted([("shb", 12), ("q", 2), ("dest", 4), ("clone", 2), ("err", 2 if allow_err else 0),
-                              ("flag", 1), ("hbs", 2), ("take", 1), ("cerr", 2), ("reload", 3), ("living", 1), ("burn", 1), ("rp", 1)])
+                              ("flag", 1), ("hbs", 2), ("take", 1), ("cerr", 2), ("reload", 3), ("living", 1), ("burn", 1), ("rp", 1), ("mv", 1)])
             t = rng.choice(ids["all"])
             if k == "shb":
                 ops.append("shb,o%d,%d" % (t, rng.weighted(INTERVALS)))
@@ -395,6 +409,8 @@ class C11(Prop):
                     ops.append("err")      # reaches error_handler even when the object has just destructed itself
             elif k == "take":
                 ops.append("take,o%d" % t)
+            elif k == "mv":
+                ops.append("mv,o%d" % t)
             elif k == "reload":
                 ops.append("reload,o%d,%d" % (t, rng.weighted([(1, 6), (2, 3), (0, 2), (3, 1), (-1, 1), (40000, 1)])))
             elif k == "clone":
@@ -431,11 +447,17 @@ class C11(Prop):
                 hops = []
                 for _ in range(rng.range(1, 3)):
                     k = rng.weighted([("wake", 5), ("shb", 3), ("hbs", 1), ("q", 1), ("flag", 1), ("clone", 1), ("err", 1),
-                                      ("cerr", 1)])
+                                      ("cerr", 1), ("selfdest", 1), ("otherdest", 1), ("mv", 2)])
                     if k == "wake":
                         hops.append("shb,o%d,%d" % (c, rng.weighted([(1, 5), (2, 2), (0, 1)])))
                     elif k == "shb":
                         hops.append("shb,o%d,%d" % (rng.choice(ids["all"]), rng.weighted(INTERVALS)))
+                    elif k == "selfdest":
+                        hops.append("dest,o%d" % i)
+                    elif k == "otherdest":
+                        hops.append("dest,o%d" % rng.choice(ids["all"]))
+                    elif k == "mv":
+                        hops.append("mv,o%d" % rng.choice(ids["all"]))
                     elif k == "q":
                         hops.append("q,o%d" % c)
                     elif k == "clone":
